@@ -79,6 +79,29 @@ func runDecCase(k DecCase) (verdict string) {
 		}
 		rb, _ = relRat(k.B.Coef, int64(k.B.Exp), base)
 	}
+	// an operation returns a new decimal: neither operand may have changed afterwards, nor give a
+	// different answer when the operation is repeated
+	ca0, ea0 := a.CoEx()
+	ca0 = new(big.Int).Set(ca0)
+	var cb0 *big.Int
+	var eb0 int32
+	if b != nil {
+		cb0, eb0 = b.CoEx()
+		cb0 = new(big.Int).Set(cb0)
+	}
+	defer func() {
+		if verdict != "" {
+			return
+		}
+		if c, e := a.CoEx(); c.Cmp(ca0) != 0 || e != ea0 {
+			verdict = fmt.Sprintf("%s changed its receiver from %vd%d to %vd%d", k.Op, ca0, ea0, c, e)
+		}
+		if b != nil {
+			if c, e := b.CoEx(); c.Cmp(cb0) != 0 || e != eb0 {
+				verdict = fmt.Sprintf("%s changed its argument from %vd%d to %vd%d", k.Op, cb0, eb0, c, e)
+			}
+		}
+	}()
 	ra, _ := relRat(k.A.Coef, int64(k.A.Exp), base)
 	if k.Op != "Mul" && (ra == nil || (b != nil && rb == nil)) {
 		return "harness: operands too far apart for the oracle"
@@ -315,6 +338,31 @@ func runC14(c *Ctx) {
 		}
 	}
 	c.Exhaustive("String/ParseDecimal: digit counts 1..40 x scales -45..45 x sign, zero and negative zero at every scale, exponents at the int32 edges")
+
+	// ---- coefficients at the machine-word boundaries (fast paths for small coefficients) ----
+	var wordCo []*big.Int
+	for _, k := range []uint{7, 8, 15, 16, 31, 32, 53, 62, 63, 64, 65, 127, 128} {
+		p := new(big.Int).Lsh(big.NewInt(1), k)
+		for _, d := range []int64{-1, 0, 1} {
+			v := new(big.Int).Add(p, big.NewInt(d))
+			wordCo = append(wordCo, v, new(big.Int).Neg(v))
+		}
+	}
+	for _, s := range []string{"0", "1", "-1", "2", "-2", "3", "10", "-10", "1000000000000000000", "-1000000000000000000", "10000000000000000000", "3037000499", "3037000500", "-3037000500", "4294967296"} {
+		v, _ := new(big.Int).SetString(s, 10)
+		wordCo = append(wordCo, v)
+	}
+	c.Parallel(len(wordCo), func(w, i int) {
+		for _, cb := range wordCo {
+			for _, ex := range [][2]int32{{0, 0}, {-3, 5}, {2, -2}} {
+				a, b := model.Dec{Coef: wordCo[i], Exp: ex[0]}, model.Dec{Coef: cb, Exp: ex[1]}
+				for _, op := range []string{"Mul", "Add", "Sub", "Cmp"} {
+					decCheck(c, DecCase{Op: op, A: a, B: b}, true)
+				}
+			}
+		}
+	})
+	c.Exhaustive(fmt.Sprintf("word boundaries: all ordered pairs of %d coefficients (±(2^k+{-1,0,1}) for k in 7..128, sqrt(2^63) neighbours, powers of ten) x 3 exponent pairs x {Mul, Add, Sub, Cmp}", len(wordCo)))
 
 	// ---- both operands at the edges of the exponent range ----
 	var edgeCo []*big.Int
